@@ -262,7 +262,7 @@ class ArrayProductOperator(Operator):
         self.dimensions = dimensions
 
     def term(self, time="t"):
-        return _array_resolve("*", self.element, time, self.dimensions)
+        return "(" + _array_resolve("*", self.element, time, self.dimensions) + ")"
 
     def clone_with_index(self, index):
         a = ArrayProductOperator(
@@ -283,7 +283,7 @@ class ArraySumOperator(Operator):
         self.dimensions = dimensions
 
     def term(self, time="t"):
-        return _array_resolve("+", self.element, time, self.dimensions)
+        return "(" + _array_resolve("+", self.element, time, self.dimensions) + ")"
 
     def clone_with_index(self, index):
         a = ArraySumOperator(self.element, self.dimensions)
@@ -474,7 +474,7 @@ class PowerOperator(Operator):
         element = extractTerm(self.element, time)
         power = extractTerm(self.power, time)
 
-        return "({} ** {} )".format(element, power)
+        return "(({}) ** ({}))".format(element, power)
 
 
 class ComparisonOperator(BinaryOperator):
@@ -489,7 +489,7 @@ class ComparisonOperator(BinaryOperator):
     def term(self, time="t"):
         element_1 = extractTerm(self.element_1, time)
         element_2 = extractTerm(self.element_2, time)
-        return str(element_1) + "{}".format(self.sign) + str(element_2)
+        return "(" + str(element_1) + "{}".format(self.sign) + str(element_2) + ")"
 
     def resolve_dimensions(self):
         return -1
@@ -524,7 +524,7 @@ class NaryOperator(Operator):
 
 class ModOperator(BinaryOperator):
     def term(self, time="t"):
-        return self.element_1.term(time) + "%" + self.element_2.term(time)
+        return "((" + self.element_1.term(time) + ") % (" + self.element_2.term(time) + "))"
 
 
 class AdditionOperator(BinaryOperator):
@@ -546,18 +546,18 @@ class AdditionOperator(BinaryOperator):
                     cur_el2 = self.element_2
                     for i in self.index:
                         cur_el2 = cur_el2[i]
-                    return "{} + {}".format(cur_el1.term(time), cur_el2.term(time))
+                    return "({} + {})".format(cur_el1.term(time), cur_el2.term(time))
                 else:
-                    return "{} + {}".format(cur_el1.term(time), self.element_2.term(time))
+                    return "({} + {})".format(cur_el1.term(time), self.element_2.term(time))
             elif(el2_arrayed):
                 cur_el2 = self.element_2
                 for i in self.index:
                     cur_el2 = cur_el2[i]
-                return "{} + {}".format(self.element_1.term(time), cur_el2.term(time))
+                return "({} + {})".format(self.element_1.term(time), cur_el2.term(time))
             else:
-                return self.element_1.term(time) + "+" + self.element_2.term(time)
+                return "(" + self.element_1.term(time) + "+" + self.element_2.term(time) + ")"
         else:
-            return self.element_1.term(time) + "+" + self.element_2.term(time)
+            return "(" + self.element_1.term(time) + "+" + self.element_2.term(time) + ")"
 
     def resolve_dimensions(self):
         dim1 = _get_element_dimensions(self.element_1)
@@ -607,18 +607,18 @@ class SubtractionOperator(BinaryOperator):
                     cur_el2 = self.element_2
                     for i in self.index:
                         cur_el2 = cur_el2[i]
-                    return "{} - {}".format(cur_el1.term(time), cur_el2.term(time))
+                    return "({} - {})".format(cur_el1.term(time), cur_el2.term(time))
                 else:
-                    return "{} - {}".format(cur_el1.term(time), self.element_2.term(time))
+                    return "({} - {})".format(cur_el1.term(time), self.element_2.term(time))
             elif(el2_arrayed):
                 cur_el2 = self.element_2
                 for i in self.index:
                     cur_el2 = cur_el2[i]
-                return "{} - {}".format(self.element_1.term(time), cur_el2.term(time))
+                return "({} - {})".format(self.element_1.term(time), cur_el2.term(time))
             else:
-                return self.element_1.term(time) + "-" + self.element_2.term(time)
+                return "(" + self.element_1.term(time) + "-" + self.element_2.term(time) + ")"
         else:
-            return self.element_1.term(time) + "-" + self.element_2.term(time)
+            return "(" + self.element_1.term(time) + "-" + self.element_2.term(time) + ")"
 
     def resolve_dimensions(self):
         dim1 = _get_element_dimensions(self.element_1)
@@ -667,18 +667,18 @@ class DivisionOperator(BinaryOperator):
                     cur_el2 = self.element_2
                     for i in self.index:
                         cur_el2 = cur_el2[i]
-                    return "({}) / ({})".format(cur_el1.term(time), cur_el2.term(time))
+                    return "(({}) / ({}))".format(cur_el1.term(time), cur_el2.term(time))
                 else:
-                    return "({}) / ({})".format(cur_el1.term(time), self.element_2.term(time))
+                    return "(({}) / ({}))".format(cur_el1.term(time), self.element_2.term(time))
             elif(el2_arrayed):
                 cur_el2 = self.element_2
                 for i in self.index:
                     cur_el2 = cur_el2[i]
-                return "({}) / ({})".format(self.element_1.term(time), cur_el2.term(time))
+                return "(({}) / ({}))".format(self.element_1.term(time), cur_el2.term(time))
             else:
-                return "(" + self.element_1.term(time) + ") / (" + self.element_2.term(time) + ")"
+                return "((" + self.element_1.term(time) + ") / (" + self.element_2.term(time) + "))"
         else:
-            return "(" + self.element_1.term(time) + ") / (" + self.element_2.term(time) + ")"
+            return "((" + self.element_1.term(time) + ") / (" + self.element_2.term(time) + "))"
 
     def resolve_dimensions(self):
         dim1 = _get_element_dimensions(self.element_1)
@@ -720,12 +720,12 @@ class NumericalMultiplicationOperator(BinaryOperator):
                 cur_el1 = self.element_1
                 for i in self.index:
                     cur_el1 = cur_el1[i]
-                return "({}) * ({})".format(str(self.element_2), cur_el1.term(time))
+                return "(({}) * ({}))".format(str(self.element_2), cur_el1.term(time))
 
             else:
-                return "(" + str(self.element_2) + ") * (" + self.element_1.term(time) + ")"
+                return "((" + str(self.element_2) + ") * (" + self.element_1.term(time) + "))"
         else:
-            return "(" + str(self.element_2) + ") * (" + self.element_1.term(time) + ")"
+            return "((" + str(self.element_2) + ") * (" + self.element_1.term(time) + "))"
 
     def resolve_dimensions(self):
         dim1 = _get_element_dimensions(self.element_1)
@@ -778,18 +778,18 @@ class MultiplicationOperator(BinaryOperator):
                     cur_el2 = self.element_2
                     for i in self.index:
                         cur_el2 = cur_el2[i]
-                    return "({}) * ({})".format(cur_el1.term(time), cur_el2.term(time))
+                    return "(({}) * ({}))".format(cur_el1.term(time), cur_el2.term(time))
                 else:
-                    return "({}) * ({})".format(cur_el1.term(time), self.element_2.term(time))
+                    return "(({}) * ({}))".format(cur_el1.term(time), self.element_2.term(time))
             elif(el2_arrayed):
                 cur_el2 = self.element_2
                 for i in self.index:
                     cur_el2 = cur_el2[i]
-                return "({}) * ({})".format(self.element_1.term(time), cur_el2.term(time))
+                return "(({}) * ({}))".format(self.element_1.term(time), cur_el2.term(time))
             else:
-                return "(" + self.element_1.term(time) + ") * (" + self.element_2.term(time) + ")"
+                return "((" + self.element_1.term(time) + ") * (" + self.element_2.term(time) + "))"
         else:
-            return "(" + self.element_1.term(time) + ") * (" + self.element_2.term(time) + ")"
+            return "((" + self.element_1.term(time) + ") * (" + self.element_2.term(time) + "))"
 
 
     def index_to_string(self, index):
@@ -895,7 +895,7 @@ class DotOperator(BinaryOperator):
                     for i in range(dim1[0]):
                         result += "({}) * ({}) + ".format(
                             self.element_1[i].term(time), self.element_2[i].term(time))
-                    return result[:-3]
+                    return "(" + result[:-3] + ")"
             return "0.0"
 
         # Value
@@ -908,14 +908,14 @@ class DotOperator(BinaryOperator):
             cur_el2 = self.element_2
             for i in self.index:
                 cur_el2 = cur_el2[i]
-            return "({}) * ({})".format(self.element_1.term(time), cur_el2.term(time))
+            return "(({}) * ({}))".format(self.element_1.term(time), cur_el2.term(time))
 
         if dim2 == -1:  # Value
             # Vector * Value or Matrix * Value
             cur_el1 = self.element_1
             for i in self.index:
                 cur_el1 = cur_el1[i]
-            return "({}) * ({})".format(cur_el1.term(time), self.element_2.term(time))
+            return "(({}) * ({}))".format(cur_el1.term(time), self.element_2.term(time))
 
         # Vector
         if len(dim1) == 1 or dim1[1] == 0:  # Vector
@@ -927,7 +927,7 @@ class DotOperator(BinaryOperator):
                 for i in range(dim1[0]):
                     result += "({}) * ({}) + ".format(
                         self.element_1[i].term(time), self.element_2[i].term(time))
-                return result[:-3]
+                return "(" + result[:-3] + ")"
 
             # Vector * Matrix
             if dim1[0] != dim2[0]:  # Vector matrix
@@ -944,7 +944,7 @@ class DotOperator(BinaryOperator):
             for k in range(dim2[0]):
                 res += "({}) * ({}) + ".format(_get_sub_element_term(self.element_1,
                                                                      [k], time), _get_sub_element_term(self.element_2, [k, index], time))
-            return res[:-3]
+            return "(" + res[:-3] + ")"
 
         if len(dim2) == 1 or dim2[1] == 0:  # Matrix * Vector
             if dim1[1] != dim2[0]:
@@ -962,7 +962,7 @@ class DotOperator(BinaryOperator):
             for k in range(dim1[1]):
                 res += "({}) * ({}) + ".format(_get_sub_element_term(self.element_1,
                                                                      [index, k], time), _get_sub_element_term(self.element_2, [k], time))
-            return res[:-3]
+            return "(" + res[:-3] + ")"
 
         # Matrix * Matrix
         if isinstance(self.index, int) or len(self.index) != 2:
@@ -976,7 +976,7 @@ class DotOperator(BinaryOperator):
         for k in range(dim1[1]):
             res += "({}) * ({}) + ".format(_get_sub_element_term(self.element_1,
                                                                  [self.index[0], k], time), _get_sub_element_term(self.element_2, [k, self.index[1]], time))
-        return res[:-3]
+        return "(" + res[:-3] + ")"
 
         return super().term(time)
 
